@@ -31,6 +31,8 @@ def run(model, rep, tier):
     from . import lifetime
     rep.rule('C12.R10', "each run sees only its own inputs (rules/lifetime.py): no function of the package is memoised across runs (functools.lru_cache / cache), module-level containers that functions add to are emptied at the start of a run, no mutable class attribute is shared through instances (mutated in place or handed out without being re-bound per instance), and no option with a mutable argparse default is mutated in place after parsing -- a second run in the same process (other layer objects under the same names, other outcomes, other filters) must not inherit the first run's state")
     lifetime.check(ctx, rep, 'C12.R10')
+    # one lost child = one entry: shared with C07.R8
+    c07.r8_noise_tolerance(ctx, rep, R='C12.R12')
     rep.rule('C12.R11', 'nothing is counted twice across the processes of a run: a child started for '
              '--resume-layer NAME keeps exactly the layer whose name equals NAME (the parent starts one child '
              'per remaining layer; a child that also keeps layers whose names merely contain NAME runs and '
